@@ -444,7 +444,9 @@ def _check_flops(ctx, model):
 
     # combine = sum
     mem = handler("combine")
-    ok = ast.unparse(mem.node.body[-1]).replace(" ", "") == "returnsum(values)"
+    from ..rules import sole_result
+    ok = sole_result(mem.node, node_param=False) == (
+        "call", "sum", (("param", mem.node.args.args[1].arg),), ())
     ctx.ob("E/FlopCounterBase/combine", ok, where(mem),
            "combine sums the children" if ok else
            "FlopCounterBase.combine is not sum(values)")
